@@ -28,6 +28,9 @@ Definition red_sum (l : fvec) : PrimFloat.float :=
   match l with [] => fnan | a :: r => fold_left PrimFloat.add r a end.
 Definition red_max (l : fvec) : PrimFloat.float :=
   match l with [] => fnan | a :: r => fold_left (fun a b => if PrimFloat.leb b a then a else b) r a end.
+(* a binary reducer for which 0 is not neutral on non-negative components *)
+Definition red_min (l : fvec) : PrimFloat.float :=
+  match l with [] => fnan | a :: r => fold_left (fun a b => if PrimFloat.ltb b a then b else a) r a end.
 (* an array-like reducer: sum of squares, accumulated left to right from 0 *)
 Definition red_sumsq (l : fvec) : PrimFloat.float := fold_left (fun acc v => PrimFloat.add acc (PrimFloat.mul v v)) l PrimFloat.zero.
 
